@@ -55,20 +55,25 @@ func VerifC04_Functions1() {
 
 var verifKinds2 = []int{0, 3, 6, 14, 16}
 
+// first arguments of the quick tier's two-argument calls (every kind is a
+// first argument in Functions1 and in the thorough tier)
+var verifKinds2First = []int{0, 1, 2, 3, 4, 6, 7, 9, 10, 13, 15, 16, 20, 22}
+
 // VerifC04_Functions2: every registered function with two arguments: the
-// first of every kind, the second from a menu of 5 (quick) / every kind
-// (thorough); at most one of the two is symbolic (symbolic-by-symbolic
+// first from a menu of 14 kinds, the second from a menu of 5 (quick) / both of
+// every kind (thorough); at most one of the two is symbolic (symbolic-by-symbolic
 // decimal arithmetic — e.g. mod of two unknown numbers — is beyond the
 // solvers and outside the claim).
 // cover: value, error-value
 func VerifC04_Functions2() {
 	names := verifFunctionNames()
 	name := zzverif.ChoiceOf("function", names)
-	ka := zzverif.Choice("arg-kind", verifNumArgKinds)
-	var kb int
+	var ka, kb int
 	if zzverif.Thorough() {
+		ka = zzverif.Choice("arg-kind", verifNumArgKinds)
 		kb = zzverif.Choice("arg-kind", verifNumArgKinds)
 	} else {
+		ka = verifKinds2First[zzverif.Choice("arg-kind", len(verifKinds2First))]
 		kb = verifKinds2[zzverif.Choice("arg-kind", len(verifKinds2))]
 	}
 	zzverif.Assume(!(verifIsSymbolicKind(ka) && verifIsSymbolicKind(kb)))
